@@ -27,6 +27,9 @@ CHECKS = {
  'C04': ('Hypothesis-generated measurement sets: loss vs oracle objective, gradient vs central difference, metamorphic spelling equivalence, Lipschitz constant vs eigenvalue of the Hessian assembled from the gradient map',
          'Generated-input search over measurement sets (duplicates, nested, hub-shaped overlaps), noise scales, query spellings, metrics and directions; four executable oracles per case.',
          'Observation points _setup/_marginal_loss/_lipschitz are the ones named in the property; projections over a single cell are excluded from the Lipschitz clause (eigsh k=1 needs >=2 cells).'),
+ 'C09': ('Hypothesis-generated measurement sets from query families with known row-space membership vs dense pinv reference (differential), all four copies of the estimator',
+         'Generated-input search over query families/sizes 1-64/spellings/noise scales; model.total compared with an independent inverse-variance reference, noise-free clause total==N, given totals honoured exactly.',
+         'mixture_inference.estimate_total is AST-extracted (jax absent); singular values of generated dense queries kept in [0.5,5] so row-space membership is unambiguous.'),
 }
 NOT_YET = 'check not built yet (work in progress in this session); see DESIGN.md for the planned check'
 
